@@ -132,6 +132,7 @@ def count_contract(ex, args, kwargs):
 
 class _TypePair:
     """frozenset((head, NoteType.TAIL))"""
+    immutable_value = True      # a frozenset: sharing one between calls cannot be observed
 
     def __init__(self, a, b):
         self.a, self.b = a, b
@@ -329,6 +330,8 @@ def real_group(stream, include, sb, join, oh, ot):
                                                orphaned_head=oh, orphaned_tail=ot)]
     except g.OrphanedNoteException as e:
         return ("raises", e.args[0] if e.args else None)
+    except Exception as e:      # anything else is an exception the statement does not provide for
+        return ("unexpected", f"{type(e).__name__}: {e}")
 
 
 def compare(stream, include, sb, join, oh, ot):
@@ -337,6 +340,8 @@ def compare(stream, include, sb, join, oh, ot):
     except SpecRaise as s:
         exp = ("raises", s.note)
     got = real_group(stream, include, sb, join, oh, ot)
+    if isinstance(got, tuple) and got[0] == "unexpected":
+        return f"group_notes raised {got[1]}; the statement prescribes {exp!r}"
     if isinstance(exp, tuple) and isinstance(got, tuple):
         if exp[1] is not None and got[1] != exp[1]:
             return f"OrphanedNoteException names {got[1]!r}; the statement's first orphan is {exp[1]!r}"
@@ -370,6 +375,8 @@ def check_counts(stream):
                     r = fn(stream, orphaned_head=oh, orphaned_tail=ot)
                 except g.OrphanedNoteException:
                     r = "raises"
+                except Exception as x:
+                    r = f"raises {type(x).__name__}: {x}"
                 if r != e:
                     return f"{fn.__name__}({oh.name}, {ot.name}) = {r}; the statement gives {e}"
     return None
